@@ -39,7 +39,8 @@ CLAIMS['C16'] = dict(
          'apply_mask: header bytes decode to the same fields and equal the RFC 6455 layout for all flag/opcode/length<126 values; masking '
          'equals RFC XOR and is an involution for symbolic data and key; (b) CrossHair round trip parse(build(f)+T) and byte equality with '
          'an independent RFC 6455 encoder for payload lengths at both length-encoding thresholds, all flags x opcodes, symbolic payload '
-         'and trailing bytes, each after an earlier frame with complementary flag bits built in the same process.',
+         'and trailing bytes, each after an earlier frame with complementary flag bits built in the same process, and parsed a second time '
+         'by the same frame object after reset().',
     note='Trusted: z3, the AST->z3 translator (validated on 1000 random inputs per run against the native functions), CrossHair, plugin '
          'models of struct.pack/unpack and io.BytesIO. Masked frames above 127 bytes and the SHA-1/base64 accept token run on concrete '
          'vectors only (reported as concrete_vectors, not a solver claim).',
@@ -51,9 +52,11 @@ CLAIMS['C13'] = dict(
          'plus concrete traversal prefixes, through the real handler -> HttpWebServerPlugin -> serve_static_file against a fake file tree '
          'with files inside, beside (name-prefix sibling) and above the root: 200 only if an independent dot-segment resolver places the path '
          'inside the root and the body equals that file; otherwise exactly the 404 packet; the query never changes the outcome; the same '
-         'request repeated on a new connection of the same process gets the same answer.',
+         'request repeated on a new connection of the same process gets the same answer; also below /dashboard/ with the shipped dashboard '
+         'plugin loaded.',
     note='Trusted: CrossHair + z3; open()/mimetypes stubbed by FakeFS with its own normaliser; pure-Python model of os.path.normpath '
-         '(validated each run). gzip replies are checked natively on one concrete sequence of requests per process (not a solver claim).',
+         '(validated each run). gzip replies and files whose name suggests an encoding (.gz, .tgz, .svgz; real mimetypes table) are checked natively on '
+         'concrete sequences of requests per process (not a solver claim).',
     ref='DESIGN.md §2 C13')
 CLAIMS['C14'] = dict(
     text='Targets assembled from components (absolute / scheme-less / CONNECT authority form; reg-names, IPv4, six IPv6 spellings with '
@@ -68,7 +71,8 @@ CLAIMS['C14'] = dict(
 CLAIMS['C18'] = dict(
     text='Every history of bounded length over {subscribe i, unsubscribe i (also unknown/repeated), break channel i, publish, subscribe with an '
          'already broken channel, come back under the same id after the channel broke} with '
-         'run_once() after each operation, executed on the real EventDispatcher/EventQueue with list-backed queue and channel stubs; per '
+         'run_once() after each operation (and, for subscribe/unsubscribe/publish, with the whole history queued before the dispatcher runs), '
+         'executed on the real EventDispatcher/EventQueue with list-backed queue and channel stubs; per '
          'channel the received sequence must equal the reference sequence (ack, publishes while subscribed and unbroken in order, unsubscribe '
          'ack), removed/broken channels are closed and evicted, the dispatcher never raises. Opcodes are solver variables fixed per path '
          'by a ladder: a finite table explored by forking; the solver decides path feasibility.',
@@ -172,7 +176,7 @@ CLAIMS['C11'] = dict(
          'on a failed upstream handshake nothing but the 200 acknowledgement is ever queued and the connection ends; leaf requested with '
          'SAN = host, signed with the configured CA files, cached by host; client wrapped with it after the ack was flushed; plugin opt-out '
          '= opaque byte-exact tunnel; decrypted requests forwarded over the verified session and the response returned intact; '
-         'SSLWantReadError on either side of an established session means retry, not teardown.',
+         'SSLWantReadError on either side of an established session means retry, not teardown; one opting-out plugin among three is enough.',
     note='NOT claimed (not encodable): that OpenSSL verifies, that the leaf chains to the CA, real handshakes. Symbolic: host letters, both '
          'handshake outcomes, cache state, opt-out, payload byte.',
     ref='DESIGN.md §2 C11')
